@@ -633,10 +633,96 @@ func c19FirstWriteOne(cfg Config, src ListSource, w string, res *ShardResult) bo
 	return true
 }
 
+// c19FileStage exercises the file helper Subtitles.Write (real OS, not simulated): the file a list is written
+// to must hold the same bytes whether the path is fresh, already holds a longer file, or is written twice.
+func c19FileStage(cfg Config, srcs []ListSource, res *ShardResult) {
+	dir, err := os.MkdirTemp(cfg.Scratch, "c19files-")
+	if err != nil {
+		res.Notes = append(res.Notes, "file stage skipped: "+err.Error())
+		return
+	}
+	defer os.RemoveAll(dir)
+	junk := bytes.Repeat([]byte("1\n00:00:01,000 --> 00:00:02,000\nold content of the destination\n\n"), 2000)
+	n := 0
+	for _, src := range srcs {
+		sh := canon.HashBytes(mustJSON(src))
+		for _, ext := range []string{"srt", "vtt", "ssa", "stl", "ttml"} {
+			if Key64("file-stage", sh, ext)%6 != 0 {
+				continue
+			}
+			v := c19FileOne(dir, src, ext, junk, n)
+			n++
+			res.Evaluations++
+			res.Extra["file_helper_writes_real_os"]++
+			if v != nil {
+				res.Violations = append(res.Violations, *v)
+			}
+		}
+	}
+}
+
+func c19FileOne(dir string, src ListSource, ext string, junk []byte, n int) *Violation {
+	astisub.Now = func() time.Time { return c19T0 }
+	write := func(path string) ([]byte, string) {
+		s := src.Build()
+		if s == nil {
+			return nil, "nolist"
+		}
+		var werr error
+		var pn string
+		func() {
+			defer func() {
+				if p := recover(); p != nil {
+					pn = fmt.Sprint(p)
+				}
+			}()
+			werr = s.Write(path)
+		}()
+		if pn != "" {
+			return nil, "panic"
+		}
+		if werr != nil {
+			return nil, "error"
+		}
+		b, rerr := os.ReadFile(path)
+		if rerr != nil {
+			return nil, "unreadable"
+		}
+		return b, "ok"
+	}
+	fresh := filepath.Join(dir, fmt.Sprintf("fresh-%d.%s", n, ext))
+	b1, c1 := write(fresh)
+	if c1 != "ok" {
+		return nil // a writer that fails on this list is deterministic failure, nothing to compare
+	}
+	existing := filepath.Join(dir, fmt.Sprintf("existing-%d.%s", n, ext))
+	if err := os.WriteFile(existing, junk, 0o644); err != nil {
+		return nil
+	}
+	b2, c2 := write(existing)
+	b3, c3 := write(fresh) // the same path a second time
+	os.Remove(fresh)
+	os.Remove(existing)
+	var why string
+	switch {
+	case c2 != "ok" || !bytes.Equal(b1, b2):
+		why = fmt.Sprintf("written over an existing, longer file the destination holds %d bytes (%s), at a fresh path %d bytes", len(b2), c2, len(b1))
+	case c3 != "ok" || !bytes.Equal(b1, b3):
+		why = fmt.Sprintf("written a second time to the same path the destination holds %d bytes (%s), the first time %d bytes", len(b3), c3, len(b1))
+	default:
+		return nil
+	}
+	ep := Episode{Kind: "file", Source: src, Writer: ext}
+	b, _ := json.Marshal(ep)
+	return &Violation{Property: "C19", Class: "file-depends-on-destination-history", Signature: fmt.Sprintf("C19 Write(.%s) file-depends-on-destination-history", ext),
+		Detail: fmt.Sprintf("list=%s Subtitles.Write(x.%s): %s", src.Name(), ext, why), Scenario: b}
+}
+
 func c19PlainStage(cfg Config, lim c19Limits, srcs []ListSource, res *ShardResult) error {
 	if len(srcs) == 0 {
 		return nil
 	}
+	c19FileStage(cfg, srcs, res)
 	c19FirstWriteStage(cfg, srcs, res)
 	req := plainReq{Kind: "c19-plain", Sources: srcs, Writers: api.WriterFormats, Reps: lim.plainReps}
 	resps, err := runPlainChildren(cfg, req, lim.plainProc)
@@ -700,6 +786,15 @@ func replayC19(cfg Config, rf ReplayFile) (*Violation, error) {
 }
 
 func checkC19Any(cfg Config, ep Episode) *Violation {
+	if ep.Kind == "file" {
+		dir, err := os.MkdirTemp(cfg.Scratch, "c19files-")
+		if err != nil {
+			return nil
+		}
+		defer os.RemoveAll(dir)
+		junk := bytes.Repeat([]byte("1\n00:00:01,000 --> 00:00:02,000\nold content of the destination\n\n"), 2000)
+		return c19FileOne(dir, ep.Source, ep.Writer, junk, 0)
+	}
 	if ep.Kind == "first-write" {
 		// warm-up: write a fixed set of other lists with every writer in this process, then compare with a fresh process
 		root := prng.New(1)
